@@ -325,3 +325,46 @@ def spec_matrix(spec):
 
 def spec_size(spec) -> int:
     return len(spec["mets"]) + len(spec["rxns"])
+
+
+def share_ids(draw, spec):
+    """In place: a reaction and/or a metabolite takes the identifier of a gene, and one group lists the namesakes (the
+    identifier spaces of the object kinds are separate, so this is a valid model)."""
+    if not (spec["genes"] and spec["rxns"] and spec["mets"]):
+        return spec
+    gid = spec["genes"][draw(st.integers(0, len(spec["genes"]) - 1))]["id"]
+    members = [["g", gid]]
+    if gid not in {r["id"] for r in spec["rxns"]} and draw(st.booleans()):
+        r = spec["rxns"][draw(st.integers(0, len(spec["rxns"]) - 1))]
+        old, r["id"] = r["id"], gid
+        if old in spec["objective"]:
+            spec["objective"][gid] = spec["objective"].pop(old)
+        for c in spec.get("cons", []):
+            if old in c["coefs"]:
+                c["coefs"][gid] = c["coefs"].pop(old)
+        for g in spec["groups"]:
+            g["members"] = [([k, gid] if (k, x) == ("r", old) else [k, x]) for k, x in g["members"]]
+        members.append(["r", gid])
+    if gid not in {m["id"] for m in spec["mets"]} and (len(members) == 1 or draw(st.booleans())):
+        m = spec["mets"][draw(st.integers(0, len(spec["mets"]) - 1))]
+        old, m["id"] = m["id"], gid
+        for r in spec["rxns"]:
+            if old in r["mets"]:
+                r["mets"][gid] = r["mets"].pop(old)
+        for g in spec["groups"]:
+            g["members"] = [([k, gid] if (k, x) == ("m", old) else [k, x]) for k, x in g["members"]]
+        members.append(["m", gid])
+    if not spec["groups"]:
+        spec["groups"] = [{"id": "shared_ids", "name": "", "kind": "collection", "members": [], "notes": {}, "annotation": {}}]
+    have = {tuple(x) for x in spec["groups"][0]["members"]}
+    spec["groups"][0]["members"] += [x for x in members if tuple(x) not in have]
+    return spec
+
+
+@st.composite
+def with_shared_ids(draw, base):
+    """A spec from `base`; in a third of the cases identifiers are shared across object kinds (share_ids)."""
+    spec = draw(base)
+    if draw(st.sampled_from([False, False, True])):
+        share_ids(draw, spec)
+    return spec
